@@ -3,6 +3,7 @@ package wire
 import (
 	"bytes"
 	"context"
+	"encoding/binary"
 	"errors"
 	"fmt"
 	"io"
@@ -152,6 +153,49 @@ type BinaryCopyReader struct {
 	typeMap  *pgtype.Map
 	reader   *CopyReader
 	scanners []Scanner
+	buf      []byte // copy-in data which has been received but not yet consumed
+	started  bool   // the (optional) stream header has been handled
+	done     bool   // the end of the stream has been reached
+	srcErr   error  // error (or io.EOF) returned by the underlying copy reader
+}
+
+// fill ensures that at least n bytes of the copy-in stream are buffered. The
+// binary copy format is a single byte stream which the client is free to
+// split into CopyData messages at any position, additional messages are
+// consumed until enough data is available.
+func (r *BinaryCopyReader) fill(n int) error {
+	for len(r.buf) < n {
+		if r.srcErr != nil {
+			return r.srcErr
+		}
+
+		err := r.reader.Read()
+		if err != nil {
+			r.srcErr = err
+			return err
+		}
+
+		r.buf = append(r.buf, r.reader.Msg...)
+	}
+
+	return nil
+}
+
+// take consumes the next n bytes of the copy-in stream. A stream which ends
+// before n bytes are available is reported as io.ErrUnexpectedEOF.
+func (r *BinaryCopyReader) take(n int) ([]byte, error) {
+	err := r.fill(n)
+	if err == io.EOF {
+		return nil, io.ErrUnexpectedEOF
+	}
+
+	if err != nil {
+		return nil, err
+	}
+
+	value := r.buf[:n:n]
+	r.buf = r.buf[n:]
+	return value, nil
 }
 
 // Read reads a single row from the copy-in stream. The read row is returned as a
@@ -162,47 +206,84 @@ func (r *BinaryCopyReader) Read(ctx context.Context) (_ []any, err error) {
 		return nil, ctx.Err()
 	}
 
-	// NOTE: read the next chunk from the copy-in stream if the current chunk is empty.
-	if len(r.reader.Msg) == 0 {
-		err = r.reader.Read()
-		if err != nil {
+	if r.done {
+		return nil, io.EOF
+	}
+
+	if !r.started {
+		r.started = true
+
+		// NOTE: the stream starts with a signature followed by a 32-bit flags
+		// field and the 32-bit length of the header extension area.
+		err = r.fill(len(CopySignature))
+		if err != nil && err != io.EOF {
 			return nil, err
 		}
 
-		has := bytes.HasPrefix(r.reader.Msg, CopySignature)
-		if has {
-			_, err = r.reader.GetBytes(len(CopySignature))
+		if bytes.HasPrefix(r.buf, CopySignature) {
+			header, err := r.take(len(CopySignature) + 8)
 			if err != nil {
-				return nil, err
+				return nil, fmt.Errorf("unexpected copy header: %w", err)
 			}
 
-			// NOTE: 2 x 32-bit integer fields are send after the signature which we ignore for now.
-			_, err = r.reader.GetBytes(8)
+			extension := binary.BigEndian.Uint32(header[len(CopySignature)+4:])
+			if extension > math.MaxInt32 {
+				return nil, fmt.Errorf("unexpected copy header extension length: %d", extension)
+			}
+
+			_, err = r.take(int(extension))
 			if err != nil {
-				return nil, err
+				return nil, fmt.Errorf("unexpected copy header extension: %w", err)
 			}
 		}
 	}
 
-	fields, err := r.reader.GetUint16()
+	// NOTE: the end of the stream is reached when the client completes the
+	// copy operation at a row boundary...
+	err = r.fill(1)
+	if err == io.EOF {
+		r.done = true
+		return nil, io.EOF
+	}
+
 	if err != nil {
 		return nil, err
 	}
 
+	raw, err := r.take(2)
+	if err != nil {
+		return nil, fmt.Errorf("unexpected field count: %w", err)
+	}
+
+	// NOTE: ...or when the file trailer, a 16-bit integer word containing -1, is read.
+	fields := int16(binary.BigEndian.Uint16(raw))
+	if fields == -1 {
+		r.done = true
+		return nil, io.EOF
+	}
+
+	if int(fields) != len(r.scanners) {
+		return nil, fmt.Errorf("unexpected number of fields: %d, expected %d", fields, len(r.scanners))
+	}
+
 	row := make([]any, fields)
-	for index := range fields {
-		length, err := r.reader.GetUint32()
+	for index := range row {
+		raw, err := r.take(4)
 		if err != nil {
 			return nil, fmt.Errorf("unexpected field length: %w", err)
 		}
 
-		// NOTE: as a special case, -1 (or 255 255 255 255) indicates a NULL field value.
-		if length == math.MaxUint32 {
-			// r.row[index] = nil
+		// NOTE: as a special case, -1 indicates a NULL field value.
+		length := int32(binary.BigEndian.Uint32(raw))
+		if length == -1 {
 			continue
 		}
 
-		value, err := r.reader.GetBytes(int(length))
+		if length < 0 {
+			return nil, fmt.Errorf("unexpected field length: %d", length)
+		}
+
+		value, err := r.take(int(length))
 		if err != nil {
 			return nil, fmt.Errorf("unexpected value: %w", err)
 		}
